@@ -44,6 +44,8 @@ pub trait Scalar: MomTropFloat + Copy + 'static {
     fn from_f64_consts() -> Vec<u64> {
         vec![]
     }
+    /// rank of each value in removal order: creation order of the terms (Sym) / decreasing value (f64)
+    fn removal_order(vals: &[Self]) -> Vec<usize>;
     /// symbolic run: for every branch decision so far, the variables its atom depends on
     fn atom_vars() -> Vec<Vec<String>> {
         vec![]
@@ -87,6 +89,11 @@ impl Scalar for Sym {
     }
     fn rng_word(k: u64) -> u64 {
         (k + 1) << 11
+    }
+    fn removal_order(vals: &[Self]) -> Vec<usize> {
+        let mut idx: Vec<usize> = (0..vals.len()).collect();
+        idx.sort_by_key(|i| vals[*i].0);
+        idx
     }
     fn narrow_log() -> Vec<(Vec<Self>, Self)> {
         sym::CTX.with(|c| c.borrow().narrow_events.iter().map(|(a, r)| (a.iter().map(|i| Sym(*i)).collect(), Sym(*r))).collect())
@@ -165,6 +172,11 @@ impl Scalar for f64 {
         let v = <f64 as Scalar>::var(&format!("x{}", k));
         ((v * 9007199254740992.0) as u64) << 11
     }
+    fn removal_order(vals: &[Self]) -> Vec<usize> {
+        let mut idx: Vec<usize> = (0..vals.len()).collect();
+        idx.sort_by(|a, b| vals[*b].partial_cmp(&vals[*a]).unwrap_or(std::cmp::Ordering::Equal));
+        idx
+    }
     fn capture_logged(js: &serde_json::Value) -> Vec<Self> {
         match js {
             serde_json::Value::Array(a) => a.iter().map(|v| v.as_f64().unwrap_or(f64::NAN)).collect(),
@@ -194,14 +206,31 @@ pub struct Goal<T> {
     pub pow: Option<crate::smt::PowEnc>,
     /// if set: of the declared cuts, apply only those whose name starts with one of these prefixes
     pub only_cuts: Option<Vec<String>>,
+    /// alternatives: the goal holds if the main relation or any of these holds
+    pub alts: Vec<(T, Rel, T)>,
+    /// decide in log space (all terms positive; products/powers become linear)
+    pub loglin: bool,
 }
 
 pub fn goal<T: Scalar>(name: impl Into<String>, lhs: T, rel: Rel, rhs: T) -> Goal<T> {
-    Goal { name: name.into(), rel, lhs, rhs, scale: None, pow: None, only_cuts: None }
+    Goal { name: name.into(), rel, lhs, rhs, scale: None, pow: None, only_cuts: None, alts: vec![], loglin: false }
 }
 
 /// evaluate a goal natively: Some(message) if violated beyond `tol` (relative)
 pub fn native_violation(g: &Goal<f64>, tol: f64) -> Option<String> {
+    if !g.alts.is_empty() {
+        let mut all = vec![(g.lhs, g.rel, g.rhs)];
+        all.extend(g.alts.iter().cloned());
+        let mut msgs = vec![];
+        for (l, rel, r) in all {
+            let single = Goal { name: g.name.clone(), rel, lhs: l, rhs: r, scale: g.scale, pow: None, only_cuts: None, alts: vec![], loglin: false };
+            match native_violation(&single, tol) {
+                None => return None,
+                Some(m) => msgs.push(m),
+            }
+        }
+        return Some(format!("no alternative holds: {}", msgs.join(" | ")));
+    }
     let (a, b) = (g.lhs, g.rhs);
     let sc = g.scale.unwrap_or_else(|| a.abs().max(b.abs())).abs().max(f64::MIN_POSITIVE);
     let bad = match g.rel {
